@@ -165,6 +165,37 @@ impl<'a> Checker<'a> {
                 }
             }
         }
+        // hashes that are not blocks of the chain (orphaned by a rollback or a discard, or never used):
+        // every by-hash lookup must say so, none may fall back to some other block
+        {
+            let current: BTreeSet<String> = d.chain.iter().flatten().filter_map(|o| match o { Op::Finalise { hash, .. } | Op::Init { hash, .. } => Some(hash.to_lowercase()), _ => None }).collect();
+            let mut foreign: Vec<String> = d.log.iter().filter_map(|(o, r)| match o { Op::Finalise { hash, .. } if r.is_ok() && hash != hist::ZERO_HASH && !current.contains(&hash.to_lowercase()) => Some(hash.clone()), _ => None }).collect();
+            foreign.dedup();
+            foreign.truncate(3);
+            foreign.push(hist::bh(0xf0_4e16_0000 + (h.max(0) as u64)));
+            foreign.push("0xffffffffffffffffffffffffffffffffffffffffffffffffffffffffffffffff".to_string());
+            for fh in foreign {
+                for (m, params) in [
+                    ("eth_getBlockByHash", json!([fh, false])),
+                    ("eth_getBlockByHash", json!([fh, true])),
+                    ("eth_getBlockTransactionCountByHash", json!([fh])),
+                    ("eth_getTransactionByBlockHashAndIndex", json!([fh, 0])),
+                    ("eth_getTransactionByBlockHashAndIndex", json!([fh, 1])),
+                    ("debug_getRawHeader", json!([fh])),
+                    ("debug_getRawBlock", json!([fh])),
+                    ("debug_getRawReceipts", json!([fh])),
+                ] {
+                    let r = d.inst.call(m, params.clone());
+                    self.rep.evaluations += 1;
+                    let nothing = match &r { Resp::Ok(v) => v.is_null(), Resp::Err { .. } => true, _ => false };
+                    if !nothing {
+                        self.fail(d, &format!("foreign-hash-served:{}", m), format!("{}({}) for a hash that is not a block of the chain returned {}", m, params, r.short()), json!({"hash": fh}));
+                        return false;
+                    }
+                }
+                self.rep.nontrivial("foreign-block-hash-lookups".to_string());
+            }
+        }
         let mut prev_hash: Option<String> = None;
         // long stretches of mined (empty) blocks - chains initialised at a large height, or a gap of
         // 2^16 blocks - are sampled: their ends, and the blocks around multiples of 256 and 65 536
